@@ -590,7 +590,8 @@ def cubes():
            ((2, 4, 6), (40, -5, 5), 9, 100, 2000),         # stepped inlines, descending crosslines
            ((8, -1, 4), (12, -3, 5), 5, 0, 1000),          # both descending; crosslines end at line number 0
            ((0, 2, 3), (7, 1, 7), 16, 8, 4000),            # inline number 0 on an ascending axis
-           ((100, 10, 2), (3, -1, 2), 4, 0, 4000)]         # two lines per axis
+           ((100, 10, 2), (3, -1, 2), 4, 0, 4000),         # two lines per axis
+           ((5, 1, 3), (30, 2, 3), 150, 0, 2000)]          # traces longer than one z-block (16 bit: 128 samples per block)
     nrand = 3 if quick else 24
     for _ in range(nrand):
         def axis():
